@@ -380,6 +380,80 @@ pub fn generate(thorough: bool) -> Vec<Dup> {
         }
     }
 
+    // ---- 9. query carrier with form folding: an X-Amz-* parameter in the URL and again in the body.
+    //         "as if appended to the URL": the URL occurrence is the first one, however large the body is.
+    for (which, (pname, valid, decoys)) in qparams.iter().enumerate() {
+        for valid_in_url in [true, false] {
+            for extra_names in [0usize, 3, 9] {
+                let mut plan = e2e::base_plan(Carrier::Query);
+                plan.method = "POST".into();
+                plan.headers.push(("X-Extra".into(), b"e".to_vec()));
+                plan.headers.push(("Content-Type".into(), b"application/x-www-form-urlencoded".to_vec()));
+                plan.signed = vec!["host".into(), "x-extra".into()];
+                plan.token = Some("VALID-TOKEN".into());
+                let mut auth: Vec<(Vec<u8>, Vec<u8>)> = Vec::new();
+                for (j, (n2, v2, _)) in qparams.iter().enumerate() {
+                    let val = if j == which && !valid_in_url { decoys[0].clone() } else { v2.clone() };
+                    auth.push((n2.as_bytes().to_vec(), val.into_bytes()));
+                }
+                plan.query_auth_override = Some(auth);
+                let mut body: Vec<(Vec<u8>, Vec<u8>)> = Vec::new();
+                for e in 0..extra_names {
+                    body.push((format!("p{}", e).into_bytes(), b"x".to_vec()));
+                }
+                let body_val = if valid_in_url { decoys[0].clone() } else { valid.clone() };
+                body.insert(extra_names / 2, (pname.as_bytes().to_vec(), body_val.into_bytes()));
+                plan.body = refmodel::sign::spell_query(&body).into_bytes();
+                plan.body_params = Some(body);
+                let built = build(&plan);
+                let mut c = cfg.clone();
+                c.fold = true;
+                let is_token = *pname == "X-Amz-Security-Token";
+                out.push(Dup {
+                    label: format!("{} in URL and in folded body, valid in {} ({} other body names)", pname, if valid_in_url { "URL" } else { "body" }, extra_names),
+                    wire: WireReq::from_wire(&built.wire),
+                    cfg: c,
+                    expect_ok: valid_in_url || is_token,
+                    expect_ask: Some((e2e::ACCESS_KEY.into(), Some(if !is_token || valid_in_url { "VALID-TOKEN".to_string() } else { "DECOY-0".to_string() }))),
+                    expect_both_carriers: false,
+                });
+            }
+        }
+    }
+    // the signature parameter itself in URL and body
+    for valid_in_url in [true, false] {
+        for extra_names in [0usize, 9] {
+            let mut plan = e2e::base_plan(Carrier::Query);
+            plan.method = "POST".into();
+            plan.headers.push(("Content-Type".into(), b"application/x-www-form-urlencoded".to_vec()));
+            let placeholder = "P".repeat(64);
+            let mut body: Vec<(Vec<u8>, Vec<u8>)> = (0..extra_names).map(|e| (format!("p{}", e).into_bytes(), b"x".to_vec())).collect();
+            body.push((b"X-Amz-Signature".to_vec(), placeholder.clone().into_bytes()));
+            plan.body = refmodel::sign::spell_query(&body).into_bytes();
+            plan.body_params = Some(body);
+            let built = build(&plan);
+            let mut w = WireReq::from_wire(&built.wire);
+            let sig = built.signed.signature.clone();
+            let decoy = "0".repeat(64);
+            if valid_in_url {
+                w.body = String::from_utf8_lossy(&w.body).replace(&placeholder, &decoy).into_bytes();
+            } else {
+                w.body = String::from_utf8_lossy(&w.body).replace(&placeholder, &sig).into_bytes();
+                w.uri = w.uri.replace(&sig, &decoy);
+            }
+            let mut c = cfg.clone();
+            c.fold = true;
+            out.push(Dup {
+                label: format!("X-Amz-Signature in URL and in folded body, valid in {} ({} other body names)", if valid_in_url { "URL" } else { "body" }, extra_names),
+                wire: w,
+                cfg: c,
+                expect_ok: valid_in_url,
+                expect_ask: Some((e2e::ACCESS_KEY.into(), None)),
+                expect_both_carriers: false,
+            });
+        }
+    }
+
     // ---- pairs of simultaneously duplicated inputs (thorough): token x date, both header carrier
     if thorough {
         for (n1, k1) in nk() {
@@ -483,7 +557,7 @@ pub fn run(ctx: &Ctx) -> Report {
     });
     Report {
         stats: st,
-        rule: "for each duplicable input — Authorization header (4 decoy kinds, with/without interleaved headers); Credential / SignedHeaders / Signature inside it (2 separators); X-Amz-Date header (signed or not); X-Amz-Date vs Date in both orders; X-Amz-Security-Token header; query X-Amz-Algorithm / -Credential / -Date / -SignedHeaders / -Security-Token (adjacent or spread) and X-Amz-Signature — 2 or 3 occurrences with differing values and the single valid value at every position; the request is signed as received (all values in the canonical form) with the valid occurrence's data, so it validates iff the documented rule selects that occurrence; plus Authorization together with X-Amz-Algorithm (3 values) in the URL, in a folded body and as a complete second authentication; thorough adds all pairs of duplicated date x token. Oracle: generator's expectation (independent of the reference verifier, and cross-checked against it), error kind and provider identity. states = (stage, identity seen by provider)".into(),
+        rule: "for each duplicable input — Authorization header (4 decoy kinds, with/without interleaved headers); Credential / SignedHeaders / Signature inside it (2 separators); X-Amz-Date header (signed or not); X-Amz-Date vs Date in both orders; X-Amz-Security-Token header; query X-Amz-Algorithm / -Credential / -Date / -SignedHeaders / -Security-Token (adjacent or spread) and X-Amz-Signature — 2 or 3 occurrences with differing values and the single valid value at every position; the request is signed as received (all values in the canonical form) with the valid occurrence's data, so it validates iff the documented rule selects that occurrence; each X-Amz-* parameter once in the URL and once in a folded form body (valid one in either place, body with fewer or more names than the URL); plus Authorization together with X-Amz-Algorithm (3 values) in the URL, in a folded body and as a complete second authentication; thorough adds all pairs of duplicated date x token. Oracle: generator's expectation (independent of the reference verifier, and cross-checked against it), error kind and provider identity. states = (stage, identity seen by provider)".into(),
         bounds: json!({"cases": n, "occurrences": [2, 3]}),
         exhaustive: true,
         assumptions: vec![],
